@@ -78,7 +78,8 @@ func defsC05(maxSize int) []c05Def {
 					for mode := 0; mode < 3; mode++ {
 						for _, ro := range []bool{false, true} {
 							d := &ph.Def{Mode: mode, RequireOrder: ro, Root: ph.CmdDef{Name: "prog", Opts: opts,
-								Cmds: []*ph.CmdDef{{Name: "cmd", Opts: []ph.OptDef{{Name: "vz", Kind: ph.Bool}}}}}}
+								Cmds: []*ph.CmdDef{{Name: "cmd", Opts: []ph.OptDef{{Name: "vz", Kind: ph.Bool}}},
+									{Name: "w", Unset: true, Opts: []ph.OptDef{{Name: "vew", Kind: ph.Bool}}}}}}
 							out = append(out, c05Def{d, names})
 						}
 					}
@@ -175,13 +176,19 @@ func init() {
 						if isStr {
 							tok += "=val"
 						}
-						for ctx := 0; ctx < 3; ctx++ {
+						for ctx := 0; ctx < 6; ctx++ {
 							var argv []string
 							switch ctx {
 							case 0:
 								argv = []string{tok}
 							case 1:
 								argv = []string{"cmd", tok}
+							case 3: // the same text at two levels whose name tables differ (inherited + own name)
+								argv = []string{tok, "cmd", tok}
+							case 4: // ... and behind a wrapper that inherits nothing
+								argv = []string{tok, "w", tok}
+							case 5:
+								argv = []string{"w", tok}
 							default:
 								first := "--" + cd.def.Root.Opts[len(cd.def.Root.Opts)-1].Name
 								if isStr {
